@@ -218,6 +218,32 @@ class JsFile:
                 return n
         raise AnchorMissing("function %s in %s" % (name, self.name))
 
+    def marker_strings(self):
+        """(plain marker, inline marker) the reader looks for at the start of the last line, by what they are:
+        the module-level string that ends in `sourceMappingURL=` and the one that says
+        `data:application/json;base64,` - written as one constant or as the plain marker plus the data-URL
+        prefix tested on what follows it"""
+        from .engine import AnchorMissing
+
+        strs = {}
+        for stmt in self.body:
+            if stmt.get("type") != "VariableDeclaration":
+                continue
+            for d in stmt["declarations"]:
+                init = d.get("init") or {}
+                if (d.get("id") or {}).get("type") == "Identifier" and init.get("type") == "StringLiteral":
+                    strs[d["id"]["value"]] = init["value"]
+        plain = [v for v in strs.values() if v.rstrip().endswith("sourceMappingURL=")]
+        inline = [v for v in strs.values() if "sourceMappingURL=" in v and "base64," in v]
+        data = [v for v in strs.values() if v.startswith("data:") and "base64," in v]
+        if len(plain) != 1:
+            raise AnchorMissing("the `sourceMappingURL=` marker string in %s" % self.name)
+        if len(inline) == 1:
+            return plain[0], inline[0]
+        if len(data) == 1:
+            return plain[0], plain[0] + data[0]
+        raise AnchorMissing("the inline (base64 data URL) marker string in %s" % self.name)
+
     def const_string(self, name):
         from .engine import AnchorMissing
 
